@@ -186,7 +186,8 @@ theorem compute_chain_path (cfg : Config) (s : FState) (P : List Id) (b : Blk) (
     (hB : HB s.db b) (hf : s.db.find b.id = none) (lc : List Entry)
     (hc : computeLongestChain cfg { s with db := appendBlk s.db b } b = some lc) :
     IsPath (appendBlk s.db b) s.db.libRef.id (lc.map (·.blk.id)) ∧ s.db.libRef.id ∉ lc.map (·.blk.id) ∧
-    Faithful (appendBlk s.db b) lc ∧ topOf s.db.libRef.id (lc.map (·.blk.id)) = b.id := by
+    Faithful (appendBlk s.db b) lc ∧ topOf s.db.libRef.id (lc.map (·.blk.id)) = b.id ∧
+    (∀ x, lc.getLast? = some x → x.blk.ref = b.ref ∧ x.blk.lib = b.lib) := by
   rcases computeLongestChain_cases cfg { s with db := appendBlk s.db b } b with ⟨c, cs, hcache, hpar, hlibc, hres⟩ | hres
   · -- the cached chain is extended
     rw [hres] at hc
@@ -204,7 +205,10 @@ theorem compute_chain_path (cfg : Config) (s : FState) (P : List Id) (b : Blk) (
       | none => simp at hg
       | some z => simp
     have hself := find_append_self s.db b hf
-    refine ⟨?_, ?_, ?_, by simp⟩
+    refine ⟨?_, ?_, ?_, by simp, by
+      intro x hx
+      rw [show (c :: cs ++ [(⟨b, false⟩ : Entry)]) = (c :: cs) ++ [⟨b, false⟩] from rfl, List.getLast?_append] at hx
+      simp at hx; subst hx; exact ⟨rfl, rfl⟩⟩
     · rw [List.map_append, isPath_append]
       refine ⟨isPath_append_entry s.db b _ _ hp hf, ?_⟩
       simp only [List.map_cons, List.map_nil, IsPath, and_true]
@@ -241,14 +245,24 @@ theorem compute_chain_path (cfg : Config) (s : FState) (P : List Id) (b : Blk) (
       have hl : (appendBlk s.db b).hasLIB = true := hasLIB_of_id _ hI.libNe
       have hr' : r = true := revSegAux_reach _ _ _ _ _ _ _ _ hl hr
       subst hr'
-      obtain ⟨h1, h2, h3, _, h5⟩ := reversibleSegment_sound _ _ _ _ hr
-      refine ⟨h1, ?_, ?_, h2⟩
+      obtain ⟨h1, h2, h3, h4, h5⟩ := reversibleSegment_sound _ _ _ _ hr
+      refine ⟨h1, ?_, ?_, h2, ?_⟩
       · intro hm
         obtain ⟨x, hx, hxe⟩ := List.mem_map.mp hm
         exact h3 x hx hxe
       · intro e he
         obtain ⟨e0, g1, g2, _⟩ := h5 e he
         exact ⟨e0, g1, g2⟩
+      · intro x hx
+        have hxm : x ∈ lc := List.mem_of_getLast? hx
+        obtain ⟨e0, g1, _, _, _, g5⟩ := h5 x hxm
+        have hxr := h4 x hx
+        refine ⟨hxr, ?_⟩
+        have hxid : x.blk.id = b.id := by
+          have := congrArg Ref.id hxr; simpa [Blk.ref] using this
+        rw [hxid, show (appendBlk s.db b).find b.id = some ⟨b, false⟩ from find_append_self s.db b hf] at g1
+        injection g1 with g1
+        rw [← g5, ← g1]
 
 
 /-! ### the deliveries of one chain switch -/
